@@ -233,6 +233,19 @@ def main(argv=None):
         'unit_status': {r.unit: (r.status + (': ' + r.reason if r.reason else '')) for r in runs},
         'scope': spec.get('scope', ''),
     }
+    def _kind(o):
+        lab = o.split(':', 1)[1] if ':' in o else o
+        if lab.startswith(('shape:', 'sig:')):
+            return 'verus_front_end (rustc type check of schema-derived ghost contracts against the emitted code; not SMT)'
+        if lab.startswith(('wire:', 'ns:', 'order:', 'decl:', 'index:')):
+            return 'attribute/index text comparison (no solver; emitted yaserde attributes are invisible to any verifier front end)'
+        if lab.startswith('bounded:') or lab.startswith('kani:'):
+            return 'bounded (Kani/CBMC or bounded run of the real code; never counted as proved)'
+        return 'verus_smt (deductive proof, Z3)'
+    byk = {}
+    for o in counted:
+        byk[_kind(o)] = byk.get(_kind(o), 0) + 1
+    cov['obligations_by_deciding_step'] = byk
     if extra:
         cov.update(extra.get('coverage', {}))
     if selftest is not None:
